@@ -323,8 +323,12 @@ ROOMS = (0, 1, 2, 3, 4, 5)
 #                    at A reads k of them
 #   ('busy', i)      setsockopt(SO_RCVBSY) toggled on connection i
 #   ('round',)       one link round (A -> B, B's applications, B -> A)
+#   ('sock36',)      a data link connection socket bound to SAP 36, never
+#                    connected
 #   ('pdu_in', x)    'dm35': CONNECT from an unknown SSAP to SAP 35 (DM in the
 #                    service access point's own send list, not size tested);
+#                    'dm36': RR to the closed socket on SAP 36 (DM in the
+#                    socket's send queue);
 #                    'backlog33': two CONNECT to SAP 33 (one in the backlog, DM
 #                    for the second in the listening socket's send queue);
 #                    'noname': CONNECT by unknown name (DM at SAP 1)
@@ -348,8 +352,11 @@ PREPS = (
     ('acc1.read+busy', 1, (('rx', ACC, 1, 1), ('busy', ACC))),
     ('acc1.unbusy', 1, (('busy', ACC), ('round',), ('busy', ACC))),
     ('dyn1.busy', 1, (('busy', C1),)),
+    ('dyn2.read1of1', 1, (('rx', C0, 1, 1),)),
+    ('acc2.read1of1+dyn2.read1of1', 2, (('rx', ACC, 1, 1), ('rx', C0, 1, 1))),
     # (c) DM pending
     ('dm.sap35', 1, (('pdu_in', 'dm35'),)),
+    ('dm.closed36', 1, (('sock36',), ('pdu_in', 'dm36'))),
     ('dm.backlog33', 1, (('pdu_in', 'backlog33'),)),
     ('dm.noname', 1, (('pdu_in', 'noname'),)),
     # (d) service discovery answers / requests pending
@@ -401,6 +408,7 @@ class DeepSpec(Spec):
             raise RuntimeError("C10 set-up: accept failed %r %r"
                                % (out.exc, out.done))
         w.acc = acc[0]
+        w.x36 = None
 
     def build_done(self, w):
         w.c.append(w.acc)
@@ -437,9 +445,15 @@ class DeepSpec(Spec):
             viol = []
             self.round(w, Observer(self, w, viol))
             assert not viol and not w.dead, viol
+        elif kind == 'sock36':
+            import nfc.llcp.llc as llc
+            w.x36 = A.socket(llc.DATA_LINK_CONNECTION)
+            A.bind(w.x36, 36)
         elif kind == 'pdu_in':
             if st[1] == 'dm35':
                 pdus = [pdu.Connect(35, 41)]
+            elif st[1] == 'dm36':
+                pdus = [pdu.ReceiveReady(36, 41, 0)]
             elif st[1] == 'backlog33':
                 pdus = [pdu.Connect(33, 41), pdu.Connect(33, 42)]
             else:
@@ -450,6 +464,8 @@ class DeepSpec(Spec):
                 assert fr is not None and fr.error is None
             if st[1] == 'dm35':
                 assert [p.name for p in A.sap[35].send_list] == ['DM']
+            elif st[1] == 'dm36':
+                assert [p.name for p in w.x36.send_queue] == ['DM']
             elif st[1] == 'backlog33':
                 assert [p.name for p in w.als.recv_queue] == ['CONNECT']
                 assert [p.name for p in w.als.send_queue] == ['DM']
@@ -473,7 +489,7 @@ class DeepSpec(Spec):
         """Octets the PDUs waiting in A's socket send queues would take in
         one aggregated frame (2 octets length prefix + PDU each)."""
         t = 0
-        for s in [w.la, w.als] + w.c:
+        for s in [w.la, w.als] + w.c + ([w.x36] if w.x36 else []):
             for p in s.send_queue:
                 t += 2 + len(p)
         return t
@@ -539,6 +555,7 @@ class Observer(object):
     def __init__(self, spec, w, viol, trace=None):
         self.spec, self.w, self.viol, self.trace = spec, w, viol, trace
         self.stats = spec.stats if hasattr(spec, 'stats') else None
+        self.prev = None       # (room, kind of last PDU) of the frame before
 
     def count(self, k):
         if self.stats is not None:
@@ -564,6 +581,19 @@ class Observer(object):
         self.count('frames_agf' if sent.name == 'AGF' else 'frames_single')
         if info == M:
             self.count('frames_info_eq_miu')
+        # how often the boundary the prepared states aim at was met (no
+        # verdict depends on these)
+        kinds = [self.kind(p) for p in leaves]
+        unsized = ('RR', 'RNR', 'DM', 'SNL-empty')
+        if kinds[0] in unsized and self.prev is not None and \
+                self.prev[1] in ('UI', 'I') and 1 <= self.prev[0] <= 4:
+            self.count('ack_or_dm_left_for_next_frame_room_1_4')
+        self.prev = (M - info, kinds[-1]) if sent.name == 'AGF' else None
+        if sent.name == 'AGF' and M - info <= 5:
+            self.count('agf_room_le5')
+            data = [k for k, x in enumerate(kinds) if x in ('UI', 'I')]
+            if data and any(x in unsized for x in kinds[data[0] + 1:]):
+                self.count('agf_room_le5_ack_or_dm_after_data')
         if self.trace is not None:
             self.trace.append(dict(
                 frame=[describe(p) for p in leaves], agf=sent.name == 'AGF',
@@ -664,17 +694,31 @@ def configs(tier):
             for delta in (core_on if agf else core_off):
                 out.append(((M, agf, delta, 'core'), core_depth))
     # prepared non-initial states (aggregation on)
-    for M, depth in deep_plan(tier):
-        for name, _, _ in PREPS:
-            out.append(((M, True, name, 'deep'), depth))
+    for M in MIUS:
+        for name, _, steps in PREPS:
+            depth = deep_depth(tier, M, steps)
+            if depth:
+                out.append(((M, True, name, 'deep'), depth))
     return out
 
 
-def deep_plan(tier):
-    """(remote MIU, history depth from every prepared state)."""
+DEEP_FOCUS = (128, 131, 133)
+
+
+def deep_depth(tier, M, steps):
+    """History depth from a prepared state: two PDUs (thorough: three) after
+    the I PDUs that the application has not yet read were read - the rule
+    is applied in full where the budget allows, see the evidence."""
+    unread = sum(st[2] - st[3] for st in steps if st[0] == 'rx')
     if tier == 'quick':
-        return [(128, 2), (131, 2), (133, 2)]
-    return [(M, 3 if M in (128, 131, 133) else 2) for M in MIUS]
+        if M not in DEEP_FOCUS:
+            return 0
+        return 2 + (min(unread, 1) if M == 131 else 0)
+    if M == 131:
+        return 4
+    if M in DEEP_FOCUS:
+        return min(4, 3 + unread)
+    return 2 + min(unread, 1)
 
 
 def weight(cfg, depth):
@@ -694,8 +738,7 @@ def work(item):
         d['history'] = [list(a) for a in hist]
         d['depth'] = depth
         run.fail(sig, d, deviations=len(hist))
-    res = bfs.search(spec, depth, seed=seed, on_violation=on_violation,
-                     full_check_depth=3 if cfg[3] != 'deep' else 2)
+    res = bfs.search(spec, depth, seed=seed, on_violation=on_violation)
     for k, v in spec.stats.items():
         run.count(k, v)
     run.outcome((cfg[0], cfg[1]))
@@ -738,7 +781,7 @@ def main(tier='quick', seed=0, part=None):
     run.sample(sample_trace_deep())
     run.rule = ("state = canonical dump of both controllers, their SAPs and "
                 "sockets after a history of operations; distinct = distinct "
-                "dump per configuration (M, agf, delta, alphabet); every "
+                "dump per configuration (M, agf, delta | prepared state, alphabet); every "
                 "distinct state is drained on a copy and every frame checked")
     run.assumptions += [
         "pair MAC: both controllers are activated by the real activate() with "
@@ -830,7 +873,8 @@ def replay(doc):
     cfg = tuple(d['cfg'])
     spec = make_spec(cfg)
     hist = [tuple(a) for a in d['history']]
-    print("C10 replay cfg(M, agf, delta, alphabet)=%r history=%r" % (cfg, hist))
+    print("C10 replay cfg(M, agf, delta | prepared state, alphabet)=%r "
+          "history=%r" % (cfg, hist))
     w = spec.init()
     found = []
     for a in hist:
